@@ -99,7 +99,11 @@ func TestCheck(t *testing.T) {
 		"credentials as JSON-LD and JWT; each case runs the real Match/Build/ParseEnvelope/Validate/ResolveConstraintsFields/PEXConsumer over 5 envelope shapes and ~14 mutated " +
 		"submissions and is judged by an independent reference matcher; in addition every accepted selection is re-presented in envelopes that also hold a twin of a selected credential " +
 		"(same id - or both id-less - but other content: fails the descriptor / other claim values / re-issued; JSON-LD and JWT; single, array and second-presentation placement) with the descriptor map forged to the twin, " +
-		"where the reference's first-match vector decides that the twin is not what matching selects and the oracle checks reject plus the credential and field values the verifier reports. Non-trivial: >=1 input descriptor and >=1 wallet credential; distinct by (definition structure fingerprint, wallet class, outcome).")
+		"where the reference's first-match vector decides that the twin is not what matching selects and the oracle checks reject plus the credential and field values the verifier reports. " +
+		"A second batch of cases comes from the same generator in filter-vocabulary edge mode: filters of every kind lose their `type` keyword (pattern/const/enum/const+pattern/{} on string, number, boolean, array and element values) " +
+		"and wallets lean towards near-matching credentials; the reference decides such filters on the refuting side only (a value that violates a keyword satisfies the filter under no reading), " +
+		"and per case up to 4 (descriptor, credential) pairs the reference decides are also put to the verifier (definition reduced to the descriptor, the credential alone or next to another one, map pointing at it: " +
+		"certainly-unsatisfying must be rejected by Validate and PEXConsumer, satisfying-and-alone must be accepted). Non-trivial: >=1 input descriptor and >=1 wallet credential; distinct by (definition structure fingerprint, wallet class, outcome).")
 	r.Require(r.Pick(600, 6000), r.Pick(300, 3000))
 	r.Assume("credential JSON view per securing format as used by the repo's own fixtures (vcr/pe/test as_jsonld / as_jwt): JSON-LD credentials in compact form (single type / credentialSubject unwrapped), JWT credentials in expanded form (type and credentialSubject are arrays, registered claims mapped back); claims live in credentialSubject or the standard top-level properties")
 	r.Assume("JSONPath forms limited to $ .name [\"name\"] [n]; single-quoted bracket notation is not generated (the third-party jsonpath library only parses single-character single-quoted names)")
@@ -108,7 +112,7 @@ func TestCheck(t *testing.T) {
 
 	silenceAuditLog(t)
 	pairs := r.Pick(900, 10000)
-	cases, genStats := generate(r, pairs)
+	cases, genStats := generate(r, pairs, r.Pick(160, 1600))
 	for k, v := range genStats {
 		r.Count(k, v)
 	}
@@ -152,6 +156,12 @@ func TestCheck(t *testing.T) {
 		r.Fatalf("monitor observed too little: found=%d notfound=%d mutants_rejected=%d extraction=%d validated=%d", r.Get("matches_found"), r.Get("matches_not_found"),
 			r.Get("mutants_rejected"), r.Get("extraction_comparisons"), r.Get("submissions_validated"))
 	}
+	if r.Get("filters_without_type") == 0 || r.Get("pairs_refuted_by_filter_without_type") == 0 || r.Get("pairs_undecided_on_filter_without_type") == 0 || r.DistinctN("filters_without_type_kinds") < 4 ||
+		r.Get("verifier_probes_unsatisfying_rejected") == 0 || r.Get("verifier_probes_satisfying_accepted") == 0 || r.Get("verifier_probes_on_filter_without_type") == 0 {
+		r.Fatalf("monitor observed too little on filters without type / verifier probes: filters=%d kinds=%d refuted=%d undecided=%d probes rejected=%d accepted=%d on-typeless=%d", r.Get("filters_without_type"),
+			r.DistinctN("filters_without_type_kinds"), r.Get("pairs_refuted_by_filter_without_type"), r.Get("pairs_undecided_on_filter_without_type"),
+			r.Get("verifier_probes_unsatisfying_rejected"), r.Get("verifier_probes_satisfying_accepted"), r.Get("verifier_probes_on_filter_without_type"))
+	}
 	if r.Get("twin_forged_evaluated") == 0 || r.Get("twin_baseline_accepted") == 0 || r.Get("twin_forged_resolves_to_twin") == 0 {
 		r.Fatalf("monitor observed too little on id-colliding envelopes: forged=%d baseline_accepted=%d forged_resolves_to_twin=%d", r.Get("twin_forged_evaluated"),
 			r.Get("twin_baseline_accepted"), r.Get("twin_forged_resolves_to_twin"))
@@ -159,10 +169,21 @@ func TestCheck(t *testing.T) {
 }
 
 // generate produces the case list: a pure function of (seed, tier).
-func generate(r *ev.Run, pairs int) ([]*caseIn, map[string]int) {
+// The main batch comes from the stream "gen"; a second batch (edgePairs cases, stream "gen-edge") comes from the same
+// generator in filter-vocabulary edge mode (gen.edge), appended behind the main batch so that the main cases are the
+// same with and without it.
+func generate(r *ev.Run, pairs, edgePairs int) ([]*caseIn, map[string]int) {
 	stats := map[string]int{}
-	g := &gen{rnd: r.Rand("gen")}
 	var cases []*caseIn
+	generateBatch(r, &gen{rnd: r.Rand("gen")}, pairs, &cases, stats)
+	generateBatch(r, &gen{rnd: r.Rand("gen-edge"), n: 1000000, edge: 0.4}, pairs+edgePairs, &cases, stats)
+	stats["pairs_filter_vocabulary_edge_batch"] = edgePairs
+	return cases, stats
+}
+
+func generateBatch(r *ev.Run, g *gen, pairs int, into *[]*caseIn, stats map[string]int) {
+	cases := *into
+	defer func() { *into = cases }()
 	for len(cases) < pairs {
 		ds := g.definition()
 		raw := mustJSON(ds.tree)
@@ -218,6 +239,14 @@ func generate(r *ev.Run, pairs int) ([]*caseIn, map[string]int) {
 			r.Fatalf("reference cannot read definition: %v", err)
 		}
 		walkReqs(rd.Reqs, 1)
+		for _, x := range rd.Descs {
+			for i := range x.Fields {
+				if f := x.Fields[i].Filter; f != nil && !f.HasType {
+					stats["filters_without_type"]++
+					r.Distinct("filters_without_type_kinds", filterKind(f))
+				}
+			}
+		}
 		if noMax {
 			stats["definitions_with_pick_without_count_and_max"]++
 		}
@@ -226,7 +255,6 @@ func generate(r *ev.Run, pairs int) ([]*caseIn, map[string]int) {
 			cases = append(cases, &caseIn{idx: len(cases), ds: ds, raw: raw, pd: pd, rd: rd, w: g.wallet(ds), stream: fmt.Sprintf("case-%d", len(cases))})
 		}
 	}
-	return cases, stats
 }
 
 // ---- identification of credentials returned by pe ------------------------------------------------
@@ -336,6 +364,11 @@ func evaluate(r *ev.Run, in *caseIn) (out *caseOut) {
 			if ok {
 				matchable[x.ID] = true
 			}
+			if u == typelessUndecided {
+				out.count("pairs_undecided_on_filter_without_type", 1)
+			} else if u == "" && !ok && typelessFails(x, c) {
+				out.count("pairs_refuted_by_filter_without_type", 1)
+			}
 		}
 	}
 	if caseUnspec != "" {
@@ -344,6 +377,11 @@ func evaluate(r *ev.Run, in *caseIn) (out *caseOut) {
 
 	// --- descriptor-level probes: the definition reduced to one descriptor, the wallet reduced to one credential
 	peSat := probeDescriptors(out, in, sat, undecided)
+	if out.fatal != "" {
+		return
+	}
+	// --- the same pairs on the verifier side: may the descriptor be mapped to the credential? (vprobe_test.go)
+	verifierProbes(out, in, r.Rand(in.stream+"/verifier-probe"), sat, undecided)
 	if out.fatal != "" {
 		return
 	}
@@ -734,7 +772,7 @@ func fitsSeveral(rd *rDef, selPairs [][2]string, sat map[string]map[string]bool)
 func failClass(rd *rDef, x *rDesc, c *cred) string {
 	for i := range x.Fields {
 		f := &x.Fields[i]
-		if fr := f.eval(c.view); !fr.ok {
+		if fr := f.eval(c.view); !fr.ok && fr.unspec == "" {
 			return fieldClass(f, c.view)
 		}
 	}
@@ -744,23 +782,7 @@ func failClass(rd *rDef, x *rDesc, c *cred) string {
 func fieldClass(f *rField, view any) string {
 	fk := "nofilter"
 	if f.Filter != nil {
-		switch {
-		case f.Filter.HasEnum:
-			fk = "enum"
-		case f.Filter.Const != nil && f.Filter.Pattern != nil:
-			fk = "const+pattern"
-		case f.Filter.Const != nil:
-			fk = "const"
-		case f.Filter.Pattern != nil:
-			fk = "pattern"
-		default:
-			fk = "type"
-		}
-		if f.Filter.HasType {
-			fk += ":" + f.Filter.Type
-		} else {
-			fk += ":typeless"
-		}
+		fk = filterKind(f.Filter)
 	}
 	vk := "absent"
 	for _, p := range f.Paths {
@@ -787,6 +809,24 @@ func fieldClass(f *rField, view any) string {
 		fk = "optional-" + fk
 	}
 	return fk + "-on-" + vk
+}
+
+func filterKind(f *rFilter) string {
+	fk := "type"
+	switch {
+	case f.HasEnum:
+		fk = "enum"
+	case f.Const != nil && f.Pattern != nil:
+		fk = "const+pattern"
+	case f.Const != nil:
+		fk = "const"
+	case f.Pattern != nil:
+		fk = "pattern"
+	}
+	if f.HasType {
+		return fk + ":" + f.Type
+	}
+	return fk + ":typeless"
 }
 
 // ---- descriptor-level probes -----------------------------------------------------------------------
@@ -845,7 +885,7 @@ func probeDescriptors(out *caseOut, in *caseIn, sat map[string]map[string]bool, 
 				if guard(out, "Match", witness, func() { _, _, merr = fpd.Match([]vc.VerifiableCredential{c.vc}) }) {
 					continue
 				}
-				if (merr == nil) != x.Fields[fi].eval(c.view).ok {
+				if fr := x.Fields[fi].eval(c.view); fr.unspec == "" && (merr == nil) != fr.ok {
 					cls = fieldClass(&x.Fields[fi], c.view)
 					break
 				}
